@@ -264,7 +264,10 @@ def send_side(ctx):
             if ds.flag(0.3):
                 parts.append('s')
                 body.append('x')
-            if ds.flag(0.25) and nfd - k >= 1:
+            if ds.flag(0.2) and nfd - k >= 1:
+                parts.append('ah')
+                body.append([next_fd])
+            elif ds.flag(0.25) and nfd - k >= 1:
                 parts.append('(ih)')
                 body.append((1, next_fd))
             else:
@@ -307,6 +310,9 @@ def send_side(ctx):
             elif t[0] == '(':
                 for st, x in zip(rc.split_sig(t[1:-1]), v):
                     walk(st, x)
+            elif t[0] == 'a' and t[1] != '{':
+                for x in v:
+                    walk(t[1:], x)
         for t, v in zip(rc.split_sig(m.sig), m.body):
             walk(t, v)
         if hv != list(range(len(fds))):
